@@ -42,8 +42,8 @@ pub fn proj_ref(lon: f64, lat: f64) -> (f64, f64) {
 }
 
 /// All plane images of a position that matter for a containment test: the primary one plus,
-/// for a position within 1e-9 (in units of the half-width of its Collignon triangle) of a cap
-/// seam, the image on the other side of the seam, and the four facet images near a pole.
+/// for a position within 1e-9 (in units of the half-width of its Collignon triangle, or in plane
+/// units) of a cap seam, the image on the other side of the seam, and the four facet images near a pole.
 pub fn images(lon: f64, lat: f64) -> Vec<(f64, f64)> {
   let mut v = Vec::with_capacity(4);
   let t = (lon * (4.0 / PI)).rem_euclid(8.0);
@@ -65,12 +65,14 @@ pub fn images(lon: f64, lat: f64) -> Vec<(f64, f64)> {
     }
     return v;
   }
-  if 1.0 - x_pm1 <= 1e-9 {
+  // (near a pole the triangle is narrow: a point may be 1e-7 half-widths from the seam and yet 2e-16
+  // plane units from it; `outside_by` measures the actual distance of each image anyway)
+  if 1.0 - x_pm1 <= 1e-9 || (1.0 - x_pm1) * s <= 1e-9 {
     // east seam of facet q == west seam of facet q+1
     let qq = (q + 1.0).rem_euclid(4.0);
     v.push((2.0 * qq + 1.0 + (x_pm1 - 2.0) * s, y));
   }
-  if x_pm1 + 1.0 <= 1e-9 {
+  if x_pm1 + 1.0 <= 1e-9 || (x_pm1 + 1.0) * s <= 1e-9 {
     let qq = (q + 3.0).rem_euclid(4.0);
     v.push((2.0 * qq + 1.0 + (x_pm1 + 2.0) * s, y));
   }
